@@ -16,24 +16,25 @@
 (***************************************************************************)
 EXTENDS Integers, FiniteSets, Sequences, TLC
 
-CONSTANTS MaxRuns, KeyHasProblem,
+CONSTANTS MaxRuns, KeyHasProblem, Domains, Quads,
           InlineAtStart   \* TRUE: the matrix of the initial mesh is below bilform_matrix's file threshold (Assembly.tla, inline path)
 
 Problems == {"Smooth", "Singular", "Dirichlet", "MildSingular"}
-Domains == {"UnitSquare", "PiSquare", "LShape", "Circle"}
+\* Quads: values of --estimator-quadrature, as <<order of the weighted L2 rule, orders of the Sobolev rules>>
 Accepted(p, d) ==
   CASE p = "Smooth" -> d \in {"UnitSquare", "PiSquare"}
     [] p = "Singular" -> d \in {"UnitSquare", "LShape"}
     [] OTHER -> TRUE
 HasU0(p) == p \in {"Smooth", "Singular"}
-Runs == {c \in [problem : Problems, domain : Domains, exact : BOOLEAN] : Accepted(c.problem, c.domain)}
+Runs == {c \in [problem : Problems, domain : Domains, exact : BOOLEAN, q : Quads] : Accepted(c.problem, c.domain)}
 
 VARIABLES wd,       \* working directory: key -> what the file holds
           run,      \* current run's configuration (or "none")
           phase,    \* "idle" | "assemble" | "rhs" | "solve" | "residual"
           mat, rhs, \* provenance of the assembled matrix and load vector
+          est,      \* provenance of the estimator arrays of this run: [hier, wl2, sob]
           nruns, prev
-vars == <<wd, run, phase, mat, rhs, nruns, prev>>
+vars == <<wd, run, phase, mat, rhs, est, nruns, prev>>
 
 Dir(c) == IF c.exact THEN "data_exact" ELSE "data"
 SLKey(c) == <<Dir(c), "SL", c.domain>>                          \* curve + element lists (iteration 0: a function of the domain)
@@ -41,11 +42,21 @@ M0Key(c) == <<Dir(c), "M0", IF KeyHasProblem THEN c.problem ELSE "-", c.domain>>
 SLData(c) == <<"V", c.domain, c.exact>>
 M0Data(c) == <<"M0u0", c.problem, c.domain>>
 
-Init == wd = [k \in {} |-> 0] /\ run = "none" /\ phase = "idle" /\ mat = "none" /\ rhs = "none" /\ nruns = 0 /\ prev = "none"
+\* the estimator arrays are stored under (problem, number of elements, quadrature orders, curve + element list);
+\* the residual they are computed from is a function of problem, curve, switch (directory) and mesh
+HierKey(c) == <<Dir(c), "hier", c.problem, c.domain>>
+L2Key(c) == <<Dir(c), "wl2", c.problem, c.domain, c.q[1]>>
+SobKey(c) == <<Dir(c), "sob", c.problem, c.domain, c.q[2]>>
+HierData(c) == <<"hier", c.problem, c.domain, c.exact>>
+L2Data(c) == <<"wl2", c.problem, c.domain, c.exact, c.q[1]>>
+SobData(c) == <<"sob", c.problem, c.domain, c.exact, c.q[2]>>
+NoEst == [hier |-> "none", wl2 |-> "none", sob |-> "none"]
+
+Init == wd = [k \in {} |-> 0] /\ run = "none" /\ phase = "idle" /\ mat = "none" /\ rhs = "none" /\ est = NoEst /\ nruns = 0 /\ prev = "none"
 
 Start(c) ==
   /\ phase = "idle" /\ nruns < MaxRuns
-  /\ run' = c /\ phase' = "assemble" /\ nruns' = nruns + 1 /\ mat' = "none" /\ rhs' = "none"
+  /\ run' = c /\ phase' = "assemble" /\ nruns' = nruns + 1 /\ mat' = "none" /\ rhs' = "none" /\ est' = NoEst
   /\ prev' = run
   /\ UNCHANGED wd
 Store(k, v) == [x \in DOMAIN wd \cup {k} |-> IF x = k THEN v ELSE wd[x]]
@@ -54,27 +65,39 @@ Assemble ==
   /\ IF InlineAtStart THEN mat' = SLData(run) /\ UNCHANGED wd
      ELSE IF SLKey(run) \in DOMAIN wd THEN mat' = wd[SLKey(run)] /\ UNCHANGED wd
      ELSE mat' = SLData(run) /\ wd' = Store(SLKey(run), SLData(run))
-  /\ phase' = "rhs" /\ UNCHANGED <<run, rhs, nruns, prev>>
+  /\ phase' = "rhs" /\ UNCHANGED <<run, rhs, est, nruns, prev>>
 LoadVector ==
   /\ phase = "rhs"
   /\ IF ~HasU0(run.problem) THEN rhs' = <<"g", run.problem, run.domain>> /\ UNCHANGED wd     \* g-linform is never cached
      ELSE IF M0Key(run) \in DOMAIN wd THEN rhs' = wd[M0Key(run)] /\ UNCHANGED wd
      ELSE rhs' = M0Data(run) /\ wd' = Store(M0Key(run), M0Data(run))
-  /\ phase' = "solve" /\ UNCHANGED <<run, mat, nruns, prev>>
-Solve == phase = "solve" /\ phase' = "residual" /\ UNCHANGED <<wd, run, mat, rhs, nruns, prev>>
+  /\ phase' = "solve" /\ UNCHANGED <<run, mat, est, nruns, prev>>
+Solve == phase = "solve" /\ phase' = "hier" /\ UNCHANGED <<wd, run, mat, rhs, est, nruns, prev>>
+\* hierarchical estimator (loaded whenever its file exists), residual, weighted L2, Sobolev: load the file or compute and store
+LoadOrStore(next, key, data, field) ==
+  /\ IF key \in DOMAIN wd THEN est' = [est EXCEPT ![field] = wd[key]] /\ UNCHANGED wd
+     ELSE est' = [est EXCEPT ![field] = data] /\ wd' = Store(key, data)
+  /\ phase' = next /\ UNCHANGED <<run, mat, rhs, nruns, prev>>
+Hier == phase = "hier" /\ LoadOrStore("residual", HierKey(run), HierData(run), "hier")
+Residual == phase = "residual" /\ phase' = "l2" /\ UNCHANGED <<wd, run, mat, rhs, est, nruns, prev>>
+EstL2 == phase = "l2" /\ LoadOrStore("sobolev", L2Key(run), L2Data(run), "wl2")
+EstSob == phase = "sobolev" /\ LoadOrStore("done", SobKey(run), SobData(run), "sob")
 \* the driver is stopped (or goes on refining: later iterations have problem-dependent element lists)
-Finish == phase = "residual" /\ phase' = "idle" /\ UNCHANGED <<wd, run, mat, rhs, nruns, prev>>
+Finish == phase \in {"residual", "done"} /\ phase' = "idle" /\ UNCHANGED <<wd, run, mat, rhs, est, nruns, prev>>
 \* the user removes the directory between runs
-Wipe == phase = "idle" /\ wd # [k \in {} |-> 0] /\ wd' = [k \in {} |-> 0] /\ UNCHANGED <<run, phase, mat, rhs, nruns, prev>>
+Wipe == phase = "idle" /\ wd # [k \in {} |-> 0] /\ wd' = [k \in {} |-> 0] /\ UNCHANGED <<run, phase, mat, rhs, est, nruns, prev>>
 
-Next == (\E c \in Runs : Start(c)) \/ Assemble \/ LoadVector \/ Solve \/ Finish \/ Wipe
+Next == (\E c \in Runs : Start(c)) \/ Assemble \/ LoadVector \/ Solve \/ Hier \/ Residual \/ EstL2 \/ EstSob \/ Finish \/ Wipe
 Spec == Init /\ [][Next]_vars
 
 \* the density solved for belongs to the run's own operator and data, whatever ran before in this directory
 OwnData ==
-  phase = "residual" =>
+  phase \in {"hier", "residual"} =>
      /\ mat = SLData(run)
      /\ rhs = IF HasU0(run.problem) THEN M0Data(run) ELSE <<"g", run.problem, run.domain>>
+\* estimator arrays handed to the marking step were computed for this run's problem, curve, switch and quadrature
+OwnEstimates ==
+  phase = "done" => /\ est.hier = HierData(run) /\ est.wl2 = L2Data(run) /\ est.sob = SobData(run)
 \* a file is only ever read by runs for which it was written
 NoForeignFile == \A k \in DOMAIN wd : k[1] \in {"data", "data_exact"}
 
